@@ -96,9 +96,8 @@ package mqtt
 //@   mode int
 //@   props C02 C07 C11 C12
 //@   requires cli != nil && ctx != nil && message != nil && cli.Transport != nil
-//@   note closure invariant (established where the closure is created, checked at its direct call in publishImpl): the two captured retry
-//@   note variables hold the PUBLISH-stage and the PUBREL-stage closure over this very message
-//@   requires closureIs(retryPublish, "publishImpl$1") && *closureVar[**Message](retryPublish, "publishImpl$1", 0) == message
+//@   note closure invariant (established where the closure is created, checked at its direct call in publishImpl): the captured
+//@   note variable retryPublish2 holds the PUBREL-stage closure over this very message
 //@   requires closureIs(retryPublish2, "publishImpl$2") && *closureVar[**Message](retryPublish2, "publishImpl$2", 0) == message
 //@   assigns nothing
 //@   let sig0 *signaller = cli.sig
